@@ -24,6 +24,9 @@ def gen_doc(rng):
     body = gen.random_diagram(rng, 20, 6)
     if rng.chance(1, 3):
         body += '\n  "quoted 一 text" |'
+    if rng.chance(1, 4):
+        # rows whose quotes do not pair up, or pair up in an unusual way
+        body += "\n" + rng.choice(['  note: 3" pipe', '| a |  12"', '"', 'a "b" c "', '\\"x"', '"a\\"', '-- "" --', '"a" "', "+--+ \""])
     body = "\n".join(l.rstrip() for l in body.replace("\r", "").split("\n"))
     if rng.chance(1, 2):
         return body + "\n" + gen_legend(rng) + "\n"
